@@ -291,7 +291,10 @@ def lazy_operands(g, ops, variant):
     by_sid = {}
     for k, o in enumerate(ops):
         kind = o['k']
-        if kind == 'num':
+        if o.get('rd'):        # reads the input value: Pfunc / Pfuncn / Pkey, FunctionStream
+            out.append(dict(k=kind, n=o['n'], rd=1, vals=g.vals(1, ints=True), src=['pfunc', 'pkey'][(variant + k) % 2],
+                            sid=o['sid']))
+        elif kind == 'num':
             out.append(dict(k='num', v=g.vals(1)[0], sid=o['sid']))
         elif kind == 'fn':
             out.append(dict(k='fn', vals=g.vals(3), src=['', 'composed'][(variant + k) % 2], sid=o['sid']))
@@ -332,7 +335,7 @@ def gen_lazy(lazy, rnd, thorough):
                 else:
                     op, form = LAZY_NAR[v % len(LAZY_NAR)]
                 cases.append(dict(ty='lazy', op=op, form=form, ops=lazy_operands(g, ops, v), law=sh['law'],
-                                  gen=sh['gen'], how=how))
+                                  gen=sh['gen'], how=how, invs=sh.get('invs', [0]), ivmode=['num', 'dict'][v % 2]))
         # operators with more arguments: the two further operand kinds take two of the argument positions
         if m == 3 and (thorough or i % 4 == 0):
             op, form, nargs = LAZY_NAR_LONG[i % len(LAZY_NAR_LONG)]
@@ -350,7 +353,8 @@ def gen_lazy(lazy, rnd, thorough):
                     full.append(dict(k='num', v=nums[a] if a < len(nums) else I(1), sid=100 + a))
             # identities refer to positions: keep shared streams shared, make the others unique
             how = rnd.choice(HOWS[(sh['law'], sh['gen'])])
-            cases.append(dict(ty='lazy', op=op, form=form, ops=full, law=sh['law'], gen=sh['gen'], how=how))
+            cases.append(dict(ty='lazy', op=op, form=form, ops=full, law=sh['law'], gen=sh['gen'], how=how,
+                              invs=sh.get('invs', [0]), ivmode=['num', 'dict'][i % 2]))
     return cases
 
 
@@ -581,8 +585,11 @@ def run(ctx):
     r = ctx.model_check('OpsStream', 'OpsStream_thorough.cfg' if thorough else 'OpsStream.cfg',
                         require_cover=('DrawA', 'DrawB'), timeout=300)
     ctx.expect_ok(r, 'BinopStream draw order refines the stream law')
-    r = ctx.model_check('Ops', 'OpsLazyAccept.cfg', timeout=600, label='lazy matcher accepts the prescribed outcomes')
-    ctx.expect_ok(r, 'lazy matcher')
+    # the lazy-composition laws (no coverage mode: it runs out of memory on them) are checked while the library is driven
+    from concurrent.futures import ThreadPoolExecutor
+    lazy_pool = ThreadPoolExecutor(max_workers=1)
+    lazy_future = lazy_pool.submit(lambda: ctx.model_check('Ops', 'OpsLazyAccept.cfg', timeout=900, workers=6,
+                                                           label='laws of lazily evaluated compositions'))
     stage['model'] = round(time.time() - ctx.t0, 1)
 
     cat = get_catalog(ctx)
@@ -612,6 +619,10 @@ def run(ctx):
     t1 = time.time()
     judge(ctx, cases, traces)
     stage['validate'] = round(time.time() - t1, 1)
+    t1 = time.time()
+    ctx.expect_ok(lazy_future.result(), 'laws of lazily evaluated compositions')
+    lazy_pool.shutdown()
+    stage['wait_for_lazy_model'] = round(time.time() - t1, 1)
     ex = [t for c, t in zip(cases, traces) if c['ty'] == 'lift' and c['ka'] == 'list' and c['kb'] == 'list'][:1]
     for t in ex:
         ctx.sample(dict(op=t['op'], form=t['form'], A=t['A'], B=t['B'], tab=t['tab'], O=t['O']))
